@@ -100,10 +100,12 @@ def expand_lazy(graph, order, params=None):
     root = graph.get_nodes("shared_root", "yes")[0]
     flats = [n for n in graph.nodes if n.is_flat() and not n.is_shared_root()]
     invalid = []
+    graph._verif_steps = getattr(graph, "_verif_steps", [])
     for fi, wid in order:
         flat, worker = flats[fi], graph.workers[wid]
         if flat.is_unrolled(worker):
             continue
+        graph._verif_steps.append((wid, flat.setless_form))
         for parents, siblings, current in graph.parse_paths_to_object_roots(flat, worker.net, params or {}):
             for parent in parents:
                 if parent.is_object_root():
@@ -498,6 +500,12 @@ variants:
 # extracted graph -> driver lines (see lean/Driver/Graph.lean)
 # ---------------------------------------------------------------------------------------------
 
+def bridge_class(nd):
+    """worker invariant form of a node name, computed independently of TestNode.bridged_form: every
+    `.nets.<swarm>.<net>` segment is blanked (multi-vm names repeat it per vm)"""
+    return re.sub(r"\.nets\.[A-Za-z0-9]+\.net\d+", ".nets.W", nd["setless"])
+
+
 def _t(s):
     s = str(s).replace(" ", "+")
     return s if s != "" else "-"
@@ -524,6 +532,8 @@ def to_lines(x):
                                    _t(o["set_state"])]))
         if x.get("registers"):
             lines.append("regs " + " ".join(str(r) for r in x["registers"][i]))
+        if not nd["flat"]:
+            lines.append("cls " + tok(bridge_class(nd), "c"))
 
     def eo(o):
         return tok(o, "o") if not o.startswith("net") or "-" not in o else tok("nets:" + o.split("-")[0], "o")
@@ -917,3 +927,41 @@ def _slot_of(oid):
     if suffix.startswith("net"):
         return suffix + ":nets"
     return suffix + ":vms"
+
+
+# ---------------------------------------------------------------------------------------------
+# the spec oracle for the bridging part of C09
+# ---------------------------------------------------------------------------------------------
+
+def spec_bridges(x):
+    """{clause: [witness]}: symmetric links, shared registers within a class, everybody of a class linked, nobody
+    else sharing"""
+    bad = {}
+
+    def add(c, w):
+        bad.setdefault(c, []).append(w)
+
+    nodes = x["nodes"]
+    br = set(x["bridged"])
+    for (a, b) in sorted(br):
+        if (b, a) not in br:
+            add("asymmetric-bridge", (nodes[a]["id"], nodes[b]["id"]))
+        if a == b or nodes[a]["flat"] or nodes[b]["flat"] or bridge_class(nodes[a]) != bridge_class(nodes[b]) \
+                or nodes[a]["worker"] == nodes[b]["worker"]:
+            add("non-equivalent-bridge", (nodes[a]["id"], nodes[b]["id"]))
+        if x["registers"][a] != x["registers"][b] or len(set(x["registers"][a])) != 4:
+            add("registers-not-shared", (nodes[a]["id"], nodes[b]["id"]))
+    comp = [i for i, nd in enumerate(nodes) if not nd["flat"]]
+    for i in comp:
+        for j in comp:
+            if i == j:
+                continue
+            same = bridge_class(nodes[i]) == bridge_class(nodes[j])
+            if same and nodes[i]["worker"] != nodes[j]["worker"] and (i, j) not in br:
+                add("equivalent-not-bridged", (nodes[i]["id"], nodes[j]["id"]))
+            if not same and set(x["registers"][i]) & set(x["registers"][j]):
+                add("registers-shared-across-classes", (nodes[i]["id"], nodes[j]["id"]))
+    for d in x["dangling"]:
+        if d[0] == "bridged":
+            add("bridge-outside-graph", d)
+    return bad
